@@ -140,6 +140,8 @@ pub enum Payload {
     Field { idx: usize, flag: FlagV },
     RawField { which: Which, bytes: Hex, flag: FlagV },
     VecField { which: Which, idxs: Vec<usize> },
+    /// serialize_uncompressed / serialize_with_mode(Compress::No) of a pool element: not read back
+    ElemUncompressed { idx: usize, as_: ElemAs },
     /// Display / Debug of a pool element into the formatter sink
     Fmt { idx: usize, affine: bool, debug: bool, fail_at: Option<usize> },
 }
